@@ -35,7 +35,10 @@ pub enum Arm { Direct(Target), Guarded(Vec<(Guard, Target)>) }
 #[derive(Clone, Debug, Serialize, Deserialize, PartialEq)]
 pub enum IllFormed { None, TargetUndeclared, TargetDeclaredWithoutArm,
   /// the output arm yields a value of another kind than the declared `<u64>` (scalar family only)
-  OutputOfOtherKind }
+  OutputOfOtherKind,
+  /// the implementation has an arm for state k (and transitions go to it) but the specification
+  /// does not declare it: a run that takes a transition into it goes to an undeclared state
+  UndeclaredStateWithArm(usize) }
 
 /// Array-pattern family: one state `:Scan(xs<[u64]>, acc<u64>)` whose arms destructure the vector.
 #[derive(Clone, Debug, Serialize, Deserialize, PartialEq)]
@@ -330,6 +333,7 @@ impl Machine {
     let mut s = format!("#M({}) => <u64>\n", typed.join(", "));
     let mut declared: Vec<usize> = (0..self.arms.len()).collect();
     if self.ill == IllFormed::TargetDeclaredWithoutArm { declared.push(5); }
+    if let IllFormed::UndeclaredStateWithArm(k) = self.ill { declared.retain(|s| *s != k); }
     for st in &declared { s.push_str(&format!("  ├ :{}({})\n", STATE_NAMES[*st], typed.join(", "))); }
     s.push_str("  └ :Done(out<u64>).\n\n");
     s.push_str(&format!("#M({}) -> :A({})\n", typed.join(", "), self.start.iter().map(|x| term_text(x, &FIELDS)).collect::<Vec<_>>().join(", ")));
@@ -527,6 +531,7 @@ pub fn gen_machine(rng: &mut Rng) -> Machine {
     0 => { m.ill = IllFormed::TargetUndeclared; retarget(&mut m, rng, 4); }
     1 => { m.ill = IllFormed::TargetDeclaredWithoutArm; retarget(&mut m, rng, 5); }
     2 => { m.ill = IllFormed::OutputOfOtherKind; }
+    3 if n_states >= 2 => { m.ill = IllFormed::UndeclaredStateWithArm(1 + rng.usize(n_states - 1)); }
     _ => {}
   }
   m
@@ -679,6 +684,18 @@ fn execute_on_thread(pl: &Plan, progress: &std::sync::Arc<std::sync::Mutex<(Stri
             if rr.visited.len() + 1 <= *budget {
               bump(&mut counters, "fault:output-of-other-kind", 1);
               if outcome.is_ok() { found = Some(vio("ill-formed-machine-accepted", "output-of-other-kind", format!("`{}` on a machine declared `=> <u64>` whose output arm yields another kind returned {}", inv_text, outcome.show()))); }
+            }
+          }
+          if let Outcome::Escaped { msg, .. } = &outcome { found = Some(vio("host-aborted", "panic-escaped", format!("panic escaped interpret(): {}", msg))); }
+        } else if let IllFormed::UndeclaredStateWithArm(ghost) = m.ill {
+          // judged only where the declaration determines that a transition into the undeclared state is
+          // taken within the budget (a static rejection of the whole machine is accepted as well)
+          let mut well = m.clone(); well.ill = IllFormed::None;
+          let rr = reference(&well, vals);
+          if let Some(pos) = rr.visited.iter().position(|(s, _)| *s == ghost) {
+            if pos + 1 <= *budget {
+              bump(&mut counters, "fault:transition-to-state-the-specification-does-not-declare", 1);
+              if outcome.is_ok() { found = Some(vio("ill-formed-machine-accepted", "state-with-arm-not-declared", format!("`{}` went through :{} which the specification does not declare and returned {}", inv_text, STATE_NAMES[ghost], outcome.show()))); }
             }
           }
           if let Outcome::Escaped { msg, .. } = &outcome { found = Some(vio("host-aborted", "panic-escaped", format!("panic escaped interpret(): {}", msg))); }
